@@ -92,6 +92,9 @@ TARGETS = [
     ("pams/events/trading_halt_rule.py", "TradingHaltRule", "hooked_before_step_for_market"),
     ("pams/events/order_mistake_shock.py", "OrderMistakeShock", "hooked_before_order"),
     ("pams/events/fundamental_price_shock.py", "FundamentalPriceShock", "hooked_before_step_for_market"),
+    ("pams/index_market.py", "IndexMarket", "is_all_markets_running"),
+    ("pams/index_market.py", "IndexMarket", "_add_market"),
+    ("pams/index_market.py", "IndexMarket", "get_components"),
     ("pams/index_market.py", "IndexMarket", "compute_market_index"),
     ("pams/index_market.py", "IndexMarket", "compute_fundamental_index"),
     ("pams/agents/base.py", "Agent", "setup"),
